@@ -264,6 +264,35 @@ def gen_triple(rng):
     return law_line(*t)
 
 
+def gen_sigorder(rng):
+    """containers whose stored signatures ARE ordered by Signature::cmp (structures of different arity) and whose members
+    are ordered the other way round / equal: fixes the order in which the derives look at members and signature"""
+    basics = "ybnqiuxtds"
+    n1, n2 = rng.sample([1, 2, 3], 2)
+    t1 = "(" + "".join(rng.choice(basics) for _ in range(n1)) + ")"
+    common = min(n1, n2)
+    t2 = "(" + t1[1:1 + common] + "".join(rng.choice(basics) for _ in range(n2 - common)) + ")" if rng.random() < 0.7 else \
+         "(" + "".join(rng.choice(basics) for _ in range(n2)) + ")"
+    kind = rng.random()
+    def arr(t):
+        return ('a', t, [gen_val(rng, t, 1) for _ in range(rng.choice([0, 1, 1, 2]))])
+    def dic(t):
+        k = rng.choice("ysu")
+        return ('e', k, t, [(gen_val(rng, k, 0), gen_val(rng, t, 1)) for _ in range(rng.choice([0, 1, 2]))])
+    def dick(t):
+        return ('e', 'y', 'a' + t, [(gen_val(rng, 'y', 0), arr(t)) for _ in range(rng.choice([0, 1, 2]))])
+    mk = arr if kind < 0.5 else dic if kind < 0.8 else dick
+    a, b = mk(t1), mk(t2)
+    c = mk(rng.choice([t1, t2])) if rng.random() < 0.6 else mutate(rng, a)
+    if rng.random() < 0.3:
+        a, b, c = ('v', a), ('v', b), ('v', c)
+    elif rng.random() < 0.3:
+        a, b, c = ('r', [a, ('y', 1)]), ('r', [b, ('y', 0)]), ('r', [c, ('y', 1)])
+    t = [a, b, c]
+    rng.shuffle(t)
+    return law_line(*t)
+
+
 def hand_picked():
     nan, nan2, nnan = ('d', 0x7ff8000000000000), ('d', 0x7ff8000000000001), ('d', 0xfff8000000000000)
     one, two = ('d', 0x3ff0000000000000), ('d', 0x4000000000000000)
@@ -291,6 +320,9 @@ def hand_picked():
         law_line(('e', 's', 'y', [(('y', 1), ('y', 1))]), ('y', 1), ('y', 1)),
         law_line(('e', 's', 'y', [(('s', b"a"), ('q', 1))]), ('y', 1), ('y', 1)),
         law_line(('a', 'v', [('v', ('y', 1)), ('v', ('s', b"x"))]), ('a', 'v', [('v', ('y', 1))]), ('a', 'v', [])),
+        law_line(('a', '(y)', [('r', [('y', 5)])]), ('a', '(yy)', [('r', [('y', 1), ('y', 1)])]), ('a', '(y)', [('r', [('y', 1)])])),
+        law_line(('e', 'y', '(yy)', [(('y', 1), ('r', [('y', 1), ('y', 1)]))]), ('e', 'y', '(y)', [(('y', 2), ('r', [('y', 1)]))]),
+                 ('e', 'y', '(y)', [(('y', 1), ('r', [('y', 9)]))])),
         law_line(('a', '(yd)', [('r', [('y', 1), nan])]), ('a', '(yd)', [('r', [('y', 1), nan])]), ('a', '(yd)', [('r', [('y', 1), one])])),
     ]
     return out
@@ -338,8 +370,8 @@ def gen(rng, tier):
         yield ln
     n_law = 17000 if tier == "quick" else 600000
     n_conv = 60 if tier == "quick" else 1500
-    for _ in range(n_law):
-        yield gen_triple(rng)
+    for i in range(n_law):
+        yield gen_triple(rng) if i % 12 else gen_sigorder(rng)
     for ty in CONV_TYPES:
         for _ in range(n_conv):
             yield "conv %s %s" % (ty, gen_sv(rng, ty))
@@ -372,8 +404,8 @@ def classify(case, impl_out):
 
 def search(rng, bad_cases):
     r2 = random.Random(rng.getrandbits(64))
-    for _ in range(40000):
-        yield gen_triple(r2)
+    for i in range(40000):
+        yield gen_triple(r2) if i % 6 else gen_sigorder(r2)
     for ty in CONV_TYPES:
         for _ in range(100):
             yield "conv %s %s" % (ty, gen_sv(r2, ty))
